@@ -390,6 +390,15 @@ func (x *Exec) simple(st *State, fr *frame, ins ssa.Instruction) {
 			st.regs[in] = Ptr{Arr: bv.Arr, Idx: addTerm(bv.Off, idx), Nil: "false"}
 		case Ptr:
 			at := in.X.Type().Underlying().(*types.Pointer).Elem().Underlying().(*types.Array)
+			if at.Len() > 8 {
+				av, ok := x.loadFrom(st, fr, bv).(ArrayV)
+				if !ok {
+					subsetf("pointer to large array without backing array")
+				}
+				x.assumeOrPanic(st, fr, and("(<= 0 "+idx+")", fmt.Sprintf("(< %s %d)", idx, av.N)), "index")
+				st.regs[in] = Ptr{Arr: av.Arr, Idx: idx, Nil: "false"}
+				return
+			}
 			n, err := strconv.Atoi(idx)
 			if err != nil {
 				subsetf("symbolic index into fixed-size array")
@@ -407,6 +416,9 @@ func (x *Exec) simple(st *State, fr *frame, ins ssa.Instruction) {
 		base := x.get(st, in.X)
 		idx := x.get(st, in.Index).(Sc).T
 		switch bv := base.(type) {
+		case ArrayV:
+			x.assumeOrPanic(st, fr, and("(<= 0 "+idx+")", fmt.Sprintf("(< %s %d)", idx, bv.N)), "index")
+			st.regs[in] = s.arrRead(st, bv.Arr, idx)
 		case Rec:
 			n, err := strconv.Atoi(idx)
 			if err != nil {
@@ -451,6 +463,25 @@ func (x *Exec) simple(st *State, fr *frame, ins ssa.Instruction) {
 		if iv, ok := v.(Iface); ok && iv.Dyn != nil && !in.CommaOk && types.Identical(iv.Dyn, in.AssertedType) {
 			st.regs[in] = iv.V
 			return
+		}
+		if iv, ok := v.(Iface); ok && iv.Dyn == nil {
+			// opaque interface value: the assertion succeeds or not according to an uninterpreted
+			// predicate of the value and the asserted type; the value itself is unchanged
+			if _, isIface := in.AssertedType.Underlying().(*types.Interface); isIface {
+				uf := q("implements:" + typeKey(in.AssertedType))
+				if _, done := s.declared[uf]; !done {
+					s.declared[uf] = "fun"
+					s.decls = append(s.decls, fmt.Sprintf("(declare-fun %s (Int) Bool)", uf))
+				}
+				okT := "(" + uf + " " + iv.Tok + ")"
+				if in.CommaOk {
+					st.regs[in] = Rec{F: []Val{Iface{Tok: ite(okT, iv.Tok, "0")}, scBool(okT)}}
+				} else {
+					x.assumeOrPanic(st, fr, okT, "typeassert")
+					st.regs[in] = iv
+				}
+				return
+			}
 		}
 		subsetf("type assertion to %s", in.AssertedType)
 	case *ssa.Range:
@@ -535,6 +566,17 @@ func (x *Exec) sliceOp(st *State, fr *frame, in *ssa.Slice) {
 	case Ptr: // pointer to array
 		at := in.X.Type().Underlying().(*types.Pointer).Elem().Underlying().(*types.Array)
 		content := x.loadFrom(st, fr, bv)
+		if av, ok := content.(ArrayV); ok {
+			// slicing a large array through a pointer shares its backing array
+			n := strconv.FormatInt(av.N, 10)
+			hi := n
+			if in.High != nil {
+				hi = x.get(st, in.High).(Sc).T
+			}
+			x.assumeOrPanic(st, fr, and("(<= 0 "+lo+")", "(<= "+lo+" "+hi+")", "(<= "+hi+" "+n+")"), "slicebounds")
+			st.regs[in] = Slice{Arr: av.Arr, Off: lo, Len: subTerm(hi, lo), Cap: subTerm(n, lo)}
+			return
+		}
 		r, ok := content.(Rec)
 		if !ok {
 			subsetf("slice of array of %T", content)
